@@ -27,13 +27,18 @@ import re
 import typing
 import uuid
 
+import jsonbackend  # noqa: F401 - VERIF_JSON_BACKEND switch, before typelib is imported
 import impl
 import lib
 import iotie
+import serdesjsontie
+import serdesasttie
 from lib import coq_list
 
 COQ_TARGETS = ["theories/Proofs/SerdesLemmas.vo", "theories/Model/SerdesEq.vo"]
 COQ_TARGETS = COQ_TARGETS + [t for t in iotie.COQ_TARGETS if t not in COQ_TARGETS]
+COQ_TARGETS = COQ_TARGETS + [t for t in serdesjsontie.COQ_TARGETS if t not in COQ_TARGETS]
+COQ_TARGETS = COQ_TARGETS + [t for t in serdesasttie.COQ_TARGETS_LOAD if t not in COQ_TARGETS]
 THEOREMS = ["C14_full_holds", "C14_full_pinned_refuted", "C14_decode_carriers", "C14_load_carriers", "C14_carriers", "C14_json_text", "C14_literal_text",
             "C14_load_json", "C14_load_plain_text", "C14_load_nontext",
             "C14_refuted_bytearray", "C14_literal_carriers", "C14_refuted_resource"]
@@ -413,7 +418,11 @@ NONTEXT = [None, True, 0, 1, -7, 2 ** 70, 1.5, [1, "a"], (1, 2), {"a": 1}, {1, 2
 def laws_sample(run: lib.Run, inputs):
     """the stated RuntimeLaws, sampled on this run's inputs against the interpreter"""
     loads = json_decoder()
-    counts = {"utf8_rt": 0, "json_bin_str": 0, "json_errors_value": 0, "literal_errors_doc": 0, "json_kind_independent": 0}
+    counts = {"utf8_rt": 0, "json_errors_value": 0, "literal_errors_doc": 0}
+    # NOT laws any more (strload hands the decoder text only since C14-strload-decode-first.diff): how often the decoder in
+    # use reads a byte string differently from its decoding / a bytearray, memoryview differently from bytes.  Counted only.
+    info = {"decoder(bytes) == decoder(str) [informational]": 0, "decoder(bytes) != decoder(str) [informational]": 0,
+            "decoder(bytearray/memoryview) != decoder(bytes) [informational]": 0}
     bad = []
     for tag, p in inputs:
         if tag == "s":
@@ -422,9 +431,8 @@ def laws_sample(run: lib.Run, inputs):
                 bad.append(("utf8_rt", p))
             b = p.encode("utf-8")
             a1, a2 = attempt(loads, b), attempt(loads, p)
-            counts["json_bin_str"] += 1
-            if not same_res(a1, a2):
-                bad.append(("json_bin_str", p))
+            info["decoder(bytes) == decoder(str) [informational]" if same_res(a1, a2)
+                 else "decoder(bytes) != decoder(str) [informational]"] += 1
             counts["json_errors_value"] += 1
             if a2[0] == "err" and a2[1] not in ("EValue", "EUnicode"):
                 bad.append(("json_errors_value", p, a2))
@@ -435,10 +443,10 @@ def laws_sample(run: lib.Run, inputs):
                     bad.append(("literal_errors_doc", p, l))
         b = p.encode("utf-8") if tag == "s" else p
         r0 = attempt(loads, b)
-        counts["json_kind_independent"] += 1
         for k in BIN[1:]:
             if not same_res(r0, attempt(loads, mk(k, b))):
-                bad.append(("json_kind_independent", b, k))
+                info["decoder(bytearray/memoryview) != decoder(bytes) [informational]"] += 1
+    counts.update(info)
     run.laws.update(counts)
     run.oblige("laws:RuntimeLaws sampled on the interpreter", not bad, repr(bad[:3]))
 
@@ -734,7 +742,11 @@ def correspond(run: lib.Run):
     if run.tier == "thorough":
         sub = [i for k, i in enumerate(inputs) if k % 3 == 0 or k < len(FIXED_STRINGS)]
     correspond_routines(run, sub, dict(dist, inputs_used=len(sub)))
-    lib.run_tie(run, iotie, streams=False)      # C14 load theorems hold of Core.load (Props/IoBridge.v); the core-io stream runs under C18
+    lib.run_tie(run, iotie, streams=False)
+    # the source of serdes.py, parsed and translated on this run, IS the model's function (Props/SerdesAst*.v + coq/dyn/SerdesAst)
+    lib.run_tie(run, serdesasttie, parts=("load",))
+    run.tie_failures = list(getattr(run, "tie_failures", [])) + list(serdesasttie.search(run, parts=("load",)))
+    lib.run_tie(run, serdesjsontie)      # the JSON decoder of the serdes model IS the proved reader of Model/Json.v (Props/C14Json.v)      # C14 load theorems hold of Core.load (Props/IoBridge.v); the core-io stream runs under C18
 
 
 # ----------------------------------------------------------------------------------
